@@ -170,6 +170,10 @@ fn step(st: &mut St, ws: &[&str]) -> String {
             };
             let t1 = now_ms();
             match r {
+                // a handler's `Err(Command(..))` is turned into an error reply by the server (Server::error_reply) and into a
+                // Lua error by the script engine: the client sees an error, as for an `Ok(error frame)`
+                Err(ferrous::FerrousError::Command(_)) if name == "XADD" => format!("err {} {}", t0, t1),
+                Err(ferrous::FerrousError::Command(_)) => "err".into(),
                 Err(_) => "errprop".into(),
                 Ok(f) => match canon_reply(&name, &f) {
                     Some(s) if name == "XADD" => format!("{} {} {}", s, t0, t1),
